@@ -143,6 +143,13 @@ pub fn check(sc: &Scenario, ex: &Exec) -> Result<(bool, Vec<String>), Violation>
                 Some(Op::NotifySup { kind, .. }) if *kind != SupKind::Started => injected.push((format!("syn-{c}-{i}"), pos)),
                 _ => {}
             },
+            Ev::Note(n) if n.starts_with("inject-kill-returned") => {
+                if k_at.is_none() {
+                    k_at = Some(pos);
+                    labels.push(format!("kill:{}", n.trim_start_matches("inject-kill-returned ")));
+                    nontrivial = true;
+                }
+            }
             Ev::ActSend { to, res, .. } if *to == a && *res == Res::Ok => pending_msgs_ok += 1,
             Ev::ActDone { a: x, what, .. } if *x == a && what == "kill_self" => {
                 if k_at.is_none() {
@@ -277,5 +284,106 @@ impl Part for C03 {
     }
     fn rule() -> &'static str {
         "generated receiver (Send/thread-local, instant or not) with scripted awaits in every callback, pre-loaded mailbox and synthetic supervision events via child.notify_supervisor, a disturber issuing kill/stop/drain after a generated delay, schedule bytes; non-trivial = the kill/stop returned while >=1 accepted message or injected supervision event was still unhandled; labels give the arrival-point histogram"
+    }
+}
+
+// ---------------------------------------------------------------------------------
+// intra-poll injection: a kill that lands between the moment the actor picked its next piece of
+// work and the first poll of the callback. On E1 a poll of the actor task is atomic, so a client
+// task can never place a kill there; the `loop:picked_*` schedule points (hook H2) let the case
+// do it from inside the poll, which is what a second OS thread does on a multi-threaded runtime.
+
+#[derive(Clone, Debug, serde::Serialize, serde::Deserialize)]
+pub struct InjCase {
+    pub sc: Scenario,
+    pub label: u8,
+    pub nth: u8,
+}
+
+const INJ_LABELS: [&str; 4] = ["loop:picked_message", "loop:picked_supervision", "loop:picked_stop", "loop:picked_drain"];
+
+struct InjHook {
+    world: std::sync::Arc<World>,
+    label: &'static str,
+    nth: u32,
+    count: std::sync::atomic::AtomicU32,
+    fired: std::sync::atomic::AtomicBool,
+}
+
+impl ractor::verif::PointHook for InjHook {
+    fn point(&self, label: &'static str) {
+        use std::sync::atomic::Ordering::SeqCst;
+        if label != self.label || self.fired.load(SeqCst) {
+            return;
+        }
+        if self.count.fetch_add(1, SeqCst) != self.nth {
+            return;
+        }
+        if let Some(c) = self.world.cell(0) {
+            self.fired.store(true, SeqCst);
+            log(Ev::Note(format!("inject-kill at {label}")));
+            c.kill();
+            log(Ev::Note(format!("inject-kill-returned injected-at-{}", label.trim_start_matches("loop:"))));
+        }
+    }
+}
+
+pub struct C03Inject;
+
+impl Part for C03Inject {
+    type Case = InjCase;
+    const PROP: &'static str = "C03";
+    const PART: &'static str = "e1-intra-poll";
+    fn cases(tier: Tier) -> u32 {
+        match tier {
+            Tier::Quick => 60_000,
+            Tier::Thorough => 1_500_000,
+        }
+    }
+    fn strategy(tier: Tier) -> BoxedStrategy<InjCase> {
+        (scenario_strategy(tier), prop_oneof![5 => Just(0u8), 3 => Just(1u8), 2 => Just(2u8), 1 => Just(3u8)], 0u8..4, any::<bool>())
+            .prop_map(|(mut sc, label, nth, instant)| {
+                // the loop points exist in the Send actor loop
+                sc.specs[0].variant = Some(if instant { Variant::Instant } else { Variant::Spawn });
+                InjCase { sc, label, nth }
+            })
+            .boxed()
+    }
+    fn run(case: &InjCase, want_trace: bool) -> Outcome {
+        let label = INJ_LABELS[case.label as usize % INJ_LABELS.len()];
+        let nth = case.nth as u32;
+        let installed = std::cell::Cell::new(false);
+        let ex = exec_scenario(
+            &case.sc,
+            ExecOpts::default(),
+            move |w, _, _| {
+                if !installed.get() {
+                    installed.set(true);
+                    ractor::verif::install_point_hook(Some(std::sync::Arc::new(InjHook { world: w.clone(), label, nth, count: Default::default(), fired: Default::default() })));
+                }
+            },
+            |_| vec![],
+        );
+        ractor::verif::install_point_hook(None);
+        let trace = if want_trace { fmt_trace(&ex.trace) } else { vec![] };
+        if let Some(p) = &ex.client_panic {
+            return Outcome { verdict: Verdict::Fail(viol("C03/client-panic", p.clone())), nontrivial: false, labels: vec![], trace };
+        }
+        let fired = ex.trace.iter().any(|e| matches!(&e.ev, Ev::Note(n) if n.starts_with("inject-kill-returned")));
+        match check(&case.sc, &ex) {
+            Err(v) => Outcome { verdict: Verdict::Fail(v), nontrivial: false, labels: vec![], trace },
+            Ok((_, labels)) => {
+                if ex.end_main == DriveEnd::Budget || ex.end_sweep == DriveEnd::Budget {
+                    return Outcome { verdict: Verdict::Inconclusive("step budget".into()), nontrivial: false, labels, trace };
+                }
+                if ex.end_main == DriveEnd::Stuck || ex.end_sweep == DriveEnd::Stuck {
+                    return Outcome { verdict: Verdict::Fail(viol("C03/stuck", format!("main={:?} sweep={:?}", ex.end_main, ex.end_sweep))), nontrivial: fired, labels, trace };
+                }
+                Outcome { verdict: Verdict::Pass, nontrivial: fired, labels, trace }
+            }
+        }
+    }
+    fn rule() -> &'static str {
+        "the e1 generator restricted to Send receivers, plus one injected kill() executed from inside the actor task's own poll at the n-th passage (n in 0..3) of a generated schedule point right after the actor picked its next piece of work (message, supervision event, stop, drain marker) and before the callback's first poll — the window a second OS thread has on a multi-threaded runtime and a client task on the single-threaded gate never has; same oracle (no callback starts and none progresses after kill() returned); non-trivial = the injection point was reached"
     }
 }
